@@ -186,7 +186,7 @@ func (p *OPricing) PriceRange(t time.Time, vol uint64) (lo, hi *big.Int, label s
 // MinDeposit = max(global minimum, base price x multiple).
 func MinDeposit(params types.Params, p *OPricing) *big.Int {
 	m := new(big.Int).Mul(p.Base, big.NewInt(params.MinDepositMultiple))
-	g := params.MinDeposit.AmountOf(denom).BigInt()
+	g := amountOfLinear(params.MinDeposit, denom).BigInt()
 	if g.Cmp(m) > 0 {
 		return g
 	}
@@ -261,4 +261,17 @@ func (p *OPricing) timesStorable() bool {
 		}
 	}
 	return true
+}
+
+// amountOfLinear reads the amount of a denomination from a coin list without assuming that the
+// list is sorted (sdk.Coins.AmountOf is a binary search: on a list that is not in canonical
+// order it may answer zero for a denomination that is there).
+func amountOfLinear(cs sdk.Coins, d string) sdk.Int {
+	total := sdk.ZeroInt()
+	for _, c := range cs {
+		if c.Denom == d && !c.Amount.IsNil() {
+			total = total.Add(c.Amount)
+		}
+	}
+	return total
 }
